@@ -8,7 +8,9 @@ import (
 	"strings"
 
 	"github.com/iancoleman/strcase"
+	"github.com/pentops/j5/gen/j5/client/v1/client_j5pb"
 	"github.com/pentops/j5/lib/verifshim/compile"
+	"google.golang.org/protobuf/reflect/protoreflect"
 	"google.golang.org/protobuf/types/descriptorpb"
 	"verifharness/vh"
 )
@@ -112,11 +114,18 @@ func lowerKey(s string) string { return "l:" + strings.ToLower(strings.ReplaceAl
 
 func genScalarField(r *vh.Rand, name string) uField {
 	t := vh.Pick(r, scalars)
-	return uField{Name: name, J5Type: t.j5, PType: t.ptype, J5Kind: t.kind, Required: r.Chance(25), Bang: r.Bool()}
+	u := uField{Name: name, J5Type: t.j5, PType: t.ptype, J5Kind: t.kind, Required: r.Chance(25), Bang: r.Bool(), SayFalse: r.Chance(20)}
+	if !u.Required && r.Chance(15) {
+		u.Optional = true
+	}
+	return u
 }
 
 func genKeyTyped(r *vh.Rand, name string) uField {
-	u := uField{Name: name, Key: true, KeyFmt: vh.Pick(r, []string{"", "id62", "uuid", "id62"}), PType: 9, J5Kind: "key", Required: r.Chance(30), Bang: r.Bool()}
+	u := uField{Name: name, Key: true, KeyFmt: vh.Pick(r, []string{"", "id62", "uuid", "id62"}), PType: 9, J5Kind: "key", Required: r.Chance(30), Bang: r.Bool(), SayFalse: r.Chance(30)}
+	if !u.Required && r.Chance(10) {
+		u.Optional = true
+	}
 	return u
 }
 
@@ -139,8 +148,10 @@ func genFields(r *vh.Rand, lo, hi int, reserved ...string) []uField {
 
 func ptr(s string) *string { return &s }
 
-func genEntity(r *vh.Rand) *entityDecl {
-	d := &entityDecl{Pkg: vh.Pick(r, pkgNames)}
+func genEntity(r *vh.Rand) *entityDecl { return genEntityOpt(r, false, "") }
+
+func genEntityOpt(r *vh.Rand, second bool, forcedName string) *entityDecl {
+	d := &entityDecl{Pkg: vh.Pick(r, pkgNames), second: second}
 	switch r.Intn(4) {
 	case 0, 1:
 		d.Name = vh.Pick(r, entNames)
@@ -149,8 +160,11 @@ func genEntity(r *vh.Rand) *entityDecl {
 	default:
 		d.Name = genIdent(r, 3)
 	}
+	if forcedName != "" {
+		d.Name = forcedName
+	}
 	if r.Chance(15) {
-		d.BaseURL = vh.Pick(r, []string{"x/y", "custom", "a/b/c_d", "v1/things"})
+		d.BaseURL = vh.Pick(r, []string{"x/y", "custom", "a/b/c_d", "v1/things", "/rooted/", "dbl//slash", "trail/"})
 	}
 	// keys
 	ks := nameSet{snakeKey("page"): true, snakeKey("query"): true, snakeKey("events"): true}
@@ -165,12 +179,18 @@ func genEntity(r *vh.Rand) *entityDecl {
 		var k eKey
 		if r.Chance(80) {
 			k.uField = genKeyTyped(r, name)
-			switch r.Intn(4) {
+			switch r.Intn(5) {
 			case 0, 1:
 				k.Primary = true
+				k.Optional = false
 			case 2:
 				if r.Bool() {
 					k.Tenant = ptr(vh.Pick(r, []string{"account", "org", "t_1"}))
+				}
+			case 3:
+				k.Foreign = &[2]string{vh.Pick(r, []string{"other.v1", "bar.baz.v2", d.Pkg}), vh.Pick(r, []string{"thing", "account", "foo_bar", "Widget"})}
+				if r.Chance(30) {
+					k.Tenant = ptr("org")
 				}
 			}
 			if k.Primary && r.Chance(15) {
@@ -190,8 +210,19 @@ func genEntity(r *vh.Rand) *entityDecl {
 			if r.Chance(85) {
 				return vh.Pick(r, []string{"ACTIVE", "INACTIVE", "PENDING", "DONE", "A_B", "S1", "NEW", "ARCHIVED", "IN_PROGRESS", "X"})
 			}
-			return vh.Pick(r, []string{"Active", "active", "inProgress", "Done2", "a_b"})
-		}, rawKey))
+			return vh.Pick(r, []string{"Active", "active", "inProgress", "Done2", "a_b", "Draft", "onHold"})
+		}, rawKey, lowerKey))
+	}
+	// edge cases of visitEnumNode/addValue: a first status ending in UNSPECIFIED takes slot 0,
+	// a status that already carries the prefix keeps its name
+	if r.Chance(8) {
+		d.Status = append([]string{vh.Pick(r, []string{"UNSPECIFIED", "X_UNSPECIFIED", strcase.ToScreamingSnake(d.Name) + "_STATUS_UNSPECIFIED"})}, d.Status...)
+	}
+	if r.Chance(8) {
+		pre := strcase.ToScreamingSnake(d.Name) + "_STATUS_" + vh.Pick(r, []string{"LIVE", "Z9"})
+		if !ss[lowerKey(pre)] {
+			d.Status = append(d.Status, pre)
+		}
 	}
 	// events
 	es := nameSet{}
@@ -220,7 +251,11 @@ func genEntity(r *vh.Rand) *entityDecl {
 			c.Name = &n
 		}
 		if r.Chance(40) {
-			c.Base = ptr(vh.Pick(r, []string{"sp", "admin", "x/y", "ops_2"}))
+			c.Base = ptr(vh.Pick(r, []string{"sp", "admin", "x/y", "ops_2", "/lead", "trail/", "a//b", "/"}))
+		}
+		if r.Chance(35) {
+			c.Audience = vh.Pick(r, [][]string{{"admin"}, {"ops", "admin"}, {"public"}})
+			c.OptionsForm = r.Intn(2)
 		}
 		for mk := r.Range(0, 2); mk > 0; mk-- {
 			m := eMethod{Verb: vh.Pick(r, []int{1, 2, 2, 3, 4, 5})}
@@ -228,7 +263,11 @@ func genEntity(r *vh.Rand) *entityDecl {
 				return vh.Pick(r, []string{"DoIt", "Create", "Update", "Archive", "Rename", "Touch", "Bump", "SetName", "Op"}) + vh.Pick(r, []string{"", "", "Foo", "2", "Thing"})
 			}, rawKey)
 			m.Request = genFields(r, 0, 3)
-			m.Response = genFields(r, 0, 2)
+			if r.Chance(15) {
+				m.NoResponse = true
+			} else {
+				m.Response = genFields(r, 0, 2)
+			}
 			var parts []string
 			for _, f := range m.Request {
 				if r.Chance(50) {
@@ -242,6 +281,17 @@ func genEntity(r *vh.Rand) *entityDecl {
 				parts = append(parts, vh.Pick(r, []string{"go", "run", "action"}))
 			}
 			m.Path = strings.Join(parts, "/")
+			// path.Join cleans what the declaration leaves unclean
+			switch r.Intn(8) {
+			case 0:
+				m.Path = "/" + m.Path
+			case 1:
+				if m.Path != "" {
+					m.Path += "/"
+				}
+			case 2:
+				m.Path = strings.Replace(m.Path, "/", "//", 1)
+			}
 			c.Methods = append(c.Methods, m)
 		}
 		d.Commands = append(d.Commands, c)
@@ -258,21 +308,135 @@ func genEntity(r *vh.Rand) *entityDecl {
 		}
 		d.Summaries = append(d.Summaries, eSummary{Name: name, Fields: genFields(r, 0, 3, "upsert")})
 	}
+	// objects declared in the entity block, and references to them (or to the entity's own
+	// generated schemas) from data / event / command / summary fields
+	if r.Chance(35) {
+		sn := nameSet{}
+		for k := r.Range(1, 2); k > 0; k-- {
+			name := sn.fresh(func() string { return vh.Pick(r, []string{"Address", "Money", "Tag", "Meta", "Dimensions", "Contact"}) + d.schemaSuffix() }, rawKey)
+			sc := eSchema{Name: name, Fields: genFields(r, 0, 3, "keys")}
+			if len(d.Schemas) > 0 && r.Chance(40) {
+				sc.Fields = append(sc.Fields, uField{Name: "prev", Obj: d.Schemas[0].Name, PType: 11, J5Kind: "object"})
+			}
+			if r.Chance(40) {
+				// an object that embeds the entity's keys must not be taken for its KEYS part
+				sc.Fields = append(sc.Fields, uField{Name: "keys", Obj: strcase.ToCamel(d.Name) + "Keys", PType: 11, J5Kind: "object", Required: r.Bool()})
+			}
+			d.Schemas = append(d.Schemas, sc)
+		}
+		targets := []string{strcase.ToCamel(d.Name) + "Keys", strcase.ToCamel(d.Name) + "Data"}
+		for _, sc := range d.Schemas {
+			targets = append(targets, sc.Name, sc.Name)
+		}
+		ref := func(name string) uField {
+			return uField{Name: name, Obj: vh.Pick(r, targets), PType: 11, J5Kind: "object", Required: r.Chance(20), Bang: r.Bool()}
+		}
+		if r.Chance(60) {
+			d.Data = append(d.Data, ref("refField"))
+		}
+		if len(d.Events) > 0 && r.Chance(50) {
+			d.Events[0].Fields = append(d.Events[0].Fields, ref("refInEvent"))
+		}
+		if len(d.Summaries) > 0 && r.Chance(50) {
+			d.Summaries[0].Fields = append(d.Summaries[0].Fields, ref("refInSummary"))
+		}
+		if len(d.Commands) > 0 && len(d.Commands[0].Methods) > 0 && r.Chance(50) {
+			m := &d.Commands[0].Methods[0]
+			if m.Verb != 1 { // an object cannot be a query parameter of a GET
+				m.Request = append(m.Request, ref("refInRequest"))
+			}
+			if !m.NoResponse {
+				m.Response = append(m.Response, ref("refInResponse"))
+			}
+		}
+	}
 	if r.Chance(50) {
-		q := &eQuery{EventsInGet: r.Bool()}
+		q := &eQuery{EventsInGet: r.Bool(), SayFalse: r.Bool()}
 		for _, s := range d.Status {
 			if r.Chance(40) {
 				q.DefaultStatus = append(q.DefaultStatus, s)
 			}
+		}
+		// the filters keep the order (and repetitions) in which they are listed
+		if len(q.DefaultStatus) > 1 && r.Chance(50) {
+			i, j := r.Intn(len(q.DefaultStatus)), r.Intn(len(q.DefaultStatus))
+			q.DefaultStatus[i], q.DefaultStatus[j] = q.DefaultStatus[j], q.DefaultStatus[i]
+		}
+		if len(q.DefaultStatus) > 0 && r.Chance(10) {
+			q.DefaultStatus = append(q.DefaultStatus, q.DefaultStatus[0])
 		}
 		d.Query = q
 	}
 	return d
 }
 
+// schemaSuffix keeps entity-level schema names apart when a file declares two entities.
+func (d *entityDecl) schemaSuffix() string {
+	if d.second {
+		return "B"
+	}
+	return ""
+}
+
+func squash(s string) string { return strings.ToLower(strings.ReplaceAll(s, "_", "")) }
+
+// genSecond draws a second entity for the same file whose generated names cannot collide
+// with the first one's.
+func genSecond(r *vh.Rand, first *entityDecl) *entityDecl {
+	for {
+		d := genEntityOpt(r, true, "")
+		a, b := squash(first.Name), squash(d.Name)
+		if a == "" || b == "" || strings.HasPrefix(a, b) || strings.HasPrefix(b, a) {
+			continue
+		}
+		d.Pkg = first.Pkg
+		for i := range d.Commands {
+			if d.Commands[i].Name != nil {
+				n := "Two" + *d.Commands[i].Name
+				d.Commands[i].Name = &n
+			}
+			for k := range d.Commands[i].Methods {
+				d.Commands[i].Methods[k].Name += "B"
+			}
+		}
+		return d
+	}
+}
+
 // malformed stream: declarations entityNode.run rejects
 func genMalformed(r *vh.Rand) (*entityDecl, string) {
 	d := genEntity(r)
+	if r.Chance(30) {
+		// buildProperty: a field cannot be both required (or a primary key) and optional
+		switch {
+		case len(d.Data) > 0 && r.Bool():
+			d.Data[0].Required, d.Data[0].Optional = true, true
+		case len(d.Events) > 0 && len(d.Events[0].Fields) > 0 && r.Bool():
+			d.Events[0].Fields[0].Required, d.Events[0].Fields[0].Optional = true, true
+		default:
+			k := &d.Keys[r.Intn(len(d.Keys))]
+			if !k.Key {
+				k.uField = genKeyTyped(r, k.Name)
+			}
+			k.Primary, k.Foreign, k.Optional, k.Required = true, nil, true, false
+		}
+		return d, "optional-required"
+	}
+	if r.Chance(20) {
+		// an object reference that names nothing: resolveType fails
+		d.Data = append(d.Data, uField{Name: "dangling", Obj: vh.Pick(r, []string{"NoSuchType", strcase.ToCamel(d.Name) + "Stat", "Addres"}), PType: 11, J5Kind: "object"})
+		return d, "dangling-reference"
+	}
+	if r.Chance(25) {
+		// visitServiceMethodNode: a ":name" path part must be a request field
+		m := eMethod{Name: "MissingParam", Verb: 2, Path: vh.Pick(r, []string{":nope", "x/:nope/y", ":a/:nope"}), Request: []uField{genScalarField(r, "a")}}
+		if len(d.Commands) == 0 {
+			d.Commands = append(d.Commands, eCommand{})
+		}
+		c := &d.Commands[r.Intn(len(d.Commands))]
+		c.Methods = append(c.Methods, m)
+		return d, "missing-path-field"
+	}
 	if r.Bool() {
 		if d.Query == nil {
 			d.Query = &eQuery{}
@@ -289,36 +453,38 @@ func genMalformed(r *vh.Rand) (*entityDecl, string) {
 
 type compiled struct {
 	dump     *dumped
+	files    []protoreflect.FileDescriptor
 	err      error
 	panicked any
 }
 
-func compileEntity(d *entityDecl) (out compiled) {
+func compileEntity(d *fileDecl) (out compiled) {
 	defer func() {
 		if r := recover(); r != nil {
 			out.panicked = r
 		}
 	}()
-	files, err := compile.Compile(context.Background(), map[string]string{d.filename(): d.j5s()}, d.Pkg)
+	files, err := compile.Compile(context.Background(), map[string]string{d.filename(): d.j5s()}, d.pkg())
 	if err != nil {
 		out.err = err
 		return
 	}
-	dd, err := dumpFiles(d.Pkg, files)
+	dd, err := dumpFiles(d.pkg(), files)
 	if err != nil {
 		out.err = fmt.Errorf("dump: %w", err)
 		return
 	}
 	out.dump = dd
+	out.files = files
 	return
 }
 
-const c17Shard = 40
+const c17Shard = 25
 
 func runC17(cfg *vh.Config) error {
 	log.SetOutput(io.Discard) // the compiler logs every walker error
 	res := vh.NewResult("C17", cfg.Seed)
-	res.Rule = "entity declarations: name casings (fixed list incl. trailing capitals/acronyms/digits/underscores + generated identifiers), 1-4 keys (key-typed id62/uuid/plain with primary/tenant, or scalar) x shard flag x required, 0-4 data fields over 9 scalar types + keys, 1-4 statuses, 0-3 events with 0-3 fields, 0-2 command services (default/named, base path, 0-2 methods with path parameters), 0-2 summaries (default/named), optional query settings; malformed: unknown default status, duplicate summary; plus the strcase stream; non-trivial = distinct declaration text"
+	res.Rule = "entity declarations: name casings (fixed list incl. trailing capitals/acronyms/digits/underscores + generated identifiers), 1-4 keys (key-typed id62/uuid/plain with primary/tenant, or scalar) x shard flag x required, 0-4 data fields over 9 scalar types + keys, 1-4 statuses (+ the UNSPECIFIED-first and prefixed-name edge cases), foreign keys, optional fields, methods without response, objects declared in the entity block and object references to them / to the generated Keys and Data, 0-3 events with 0-3 fields, 0-2 command services (default/named, base path (also with leading/trailing/double slashes, cleaned by path.Join), own options block with audience/default auth, 0-2 methods with path parameters), boolean attributes also spelled out as false (primary/shardKey/required/optional/eventsInGet = false), 0-2 summaries (default/named), optional query settings; 20% of the files declare two entities; malformed: unknown default status, duplicate summary, optional+required field, path parameter that is not a request field, dangling object reference; plus the strcase stream; non-trivial = distinct declaration text"
 	cf := &vh.CasesFile{
 		Header: "From Coq Require Import String List NArith.\nFrom J5V.lib Require Import Outcome.\nFrom J5V.model Require Import Entity EntityCorr.",
 		Type:   "c17case",
@@ -328,24 +494,29 @@ func runC17(cfg *vh.Config) error {
 	caseNo := 0
 	r := cfg.R
 
-	var decls []*entityDecl
+	var decls []*fileDecl
 	var kinds []string
 	// every fixed name once with a small fixed shape, then random declarations
 	for _, n := range entNames {
-		d := genEntity(r.Fork("fixed:" + n))
-		d.Name = n
-		decls = append(decls, d)
+		d := genEntityOpt(r.Fork("fixed:"+n), false, n)
+		decls = append(decls, &fileDecl{Ents: []*entityDecl{d}})
 		kinds = append(kinds, "fixed-name")
 	}
 	nGen := cfg.Scale(160, 4000)
 	for i := 0; i < nGen; i++ {
-		decls = append(decls, genEntity(r))
-		kinds = append(kinds, "generated")
+		d := genEntity(r)
+		if r.Chance(20) {
+			decls = append(decls, &fileDecl{Ents: []*entityDecl{d, genSecond(r, d)}})
+			kinds = append(kinds, "two-entities")
+		} else {
+			decls = append(decls, &fileDecl{Ents: []*entityDecl{d}})
+			kinds = append(kinds, "generated")
+		}
 	}
-	nBad := cfg.Scale(16, 200)
+	nBad := cfg.Scale(24, 300)
 	for i := 0; i < nBad; i++ {
 		d, k := genMalformed(r)
-		decls = append(decls, d)
+		decls = append(decls, &fileDecl{Ents: []*entityDecl{d}})
 		kinds = append(kinds, k)
 	}
 
@@ -353,9 +524,12 @@ func runC17(cfg *vh.Config) error {
 		text := d.j5s()
 		distinct.Add(text)
 		res.Count("entity_" + kinds[i])
+		for _, e := range d.Ents {
+			countShape(res, e)
+		}
 		out := compileEntity(d)
 		in := map[string]any{"j5s": text}
-		malformed := kinds[i] == "unknown-default-status" || kinds[i] == "duplicate-summary"
+		malformed := kinds[i] == "unknown-default-status" || kinds[i] == "duplicate-summary" || kinds[i] == "optional-required" || kinds[i] == "missing-path-field" || kinds[i] == "dangling-reference"
 		if out.panicked != nil {
 			res.Fail(vh.Failure{Case: caseNo, Stream: "entity", Sig: "C17 compiler panic on entity declaration", Clause: "entity expansion is total", Input: in, Got: fmt.Sprint(out.panicked)})
 			caseNo++
@@ -368,32 +542,74 @@ func runC17(cfg *vh.Config) error {
 			res.Count("compiled_ok")
 			if malformed {
 				res.Fail(vh.Failure{Case: caseNo, Stream: "entity", Sig: "C17 malformed entity (" + kinds[i] + ") accepted", Clause: "walker rejects unknown default status / duplicate summary", Input: in, Got: "compiled"})
-			} else {
-				oracleC17(res, caseNo, d, out.dump, in)
+			} else if len(d.Ents) == 1 {
+				oracleC17(res, caseNo, d.Ents[0], out.dump, in)
 			}
 		} else {
 			res.Count("compiled_err")
 			if !malformed {
 				// an admissible declaration must compile (closedness of the expansion)
 				sig := "C17 admissible entity fails to compile: " + errClass(out.err)
-				if strings.Contains(out.err.Error(), "not found") && endsCap(d.Name) {
+				if strings.Contains(out.err.Error(), "not found") && endsCap(d.Ents[0].Name) {
 					sig = "C17 entity name ending in a capital fails to compile: type <Name>State/Event/EventType not found (entity.go naming)"
 				}
 				res.Fail(vh.Failure{Case: caseNo, Stream: "entity", Sig: sig, Clause: "every internal reference of the expansion resolves", Input: in, Got: out.err.Error()})
+			}
+		}
+		// second observable: the client API's StateEntity, derived by the real j5client
+		var clines []line
+		cok := false
+		if ok {
+			ents, plain, cerr, cpan := clientEntities(d.pkg(), out.files)
+			switch {
+			case cpan != nil:
+				res.Fail(vh.Failure{Case: caseNo, Stream: "entity", Sig: "C17 client API derivation panics on a compiled entity", Clause: "the client groups the parts into one StateEntity", Input: in, Got: fmt.Sprint(cpan)})
+			case cerr != nil:
+				res.Count("client_err")
+				if !malformed {
+					res.Fail(vh.Failure{Case: caseNo, Stream: "entity", Sig: "C17 client API derivation fails on a compiled entity: " + errClass(cerr), Clause: "the client groups the parts into one StateEntity", Input: in, Got: cerr.Error()})
+				}
+			default:
+				cok = true
+				// the client lists entities in map order: bring them into declaration order
+				var ordered []*client_j5pb.StateEntity
+				for _, decl := range d.Ents {
+					for _, e := range ents {
+						if e.Name == strcase.ToSnake(decl.Name) {
+							ordered = append(ordered, e)
+						}
+					}
+				}
+				if len(ordered) != len(ents) || len(ents) != len(d.Ents) {
+					res.Fail(vh.Failure{Case: caseNo, Stream: "entity", Sig: "C17 client API does not show one state entity per declared entity", Clause: "the client groups the parts into one StateEntity", Input: in, Got: fmt.Sprint(len(ents))})
+					ordered = ents
+				}
+				clines = clientLines(ordered)
+				if !malformed {
+					for k, decl := range d.Ents {
+						if k < len(ordered) {
+							oracleClient(res, caseNo, decl, ordered[k:k+1], plain, in)
+						}
+					}
+				}
 			}
 		}
 		lineTerms := make([]string, len(lines))
 		for k, l := range lines {
 			lineTerms[k] = l.coq()
 		}
-		cf.Terms = append(cf.Terms, fmt.Sprintf("EC %s %s [%s]", d.coq(), vh.BoolTerm(ok), strings.Join(lineTerms, ";\n    ")))
-		impl := map[string]any{"ok": ok, "lines": len(lines)}
+		clineTerms := make([]string, len(clines))
+		for k, l := range clines {
+			clineTerms[k] = l.coq()
+		}
+		cf.Terms = append(cf.Terms, fmt.Sprintf("EC %s %s [%s] %s [%s]", d.coq(), vh.BoolTerm(ok), strings.Join(lineTerms, ";\n    "), vh.BoolTerm(cok), strings.Join(clineTerms, ";\n    ")))
+		impl := map[string]any{"ok": ok, "lines": len(lines), "client_ok": cok, "client_lines": len(clines)}
 		if !ok {
 			impl["err"] = errClass(out.err)
 		}
 		res.Cases = append(res.Cases, vh.CaseRec{Case: caseNo, Stream: "entity", Input: in, Impl: impl})
 		if i%37 == 5 {
-			res.Sample(map[string]any{"stream": "entity", "name": d.Name, "ok": ok, "lines": len(lines)}, 6)
+			res.Sample(map[string]any{"stream": "entity", "name": d.Ents[0].Name, "entities": len(d.Ents), "ok": ok, "lines": len(lines)}, 6)
 		}
 		caseNo++
 	}
@@ -437,10 +653,18 @@ func endsCap(s string) bool {
 func errClass(err error) string {
 	s := err.Error()
 	switch {
+	case strings.Contains(s, "cannot be both required and optional"):
+		return "required and optional"
+	case strings.Contains(s, "missing field") && strings.Contains(s, "in request"):
+		return "missing field in request"
 	case strings.Contains(s, "not found in entity"):
 		return "status not found in entity"
 	case strings.Contains(s, "duplicate summary"):
 		return "duplicate summary name"
+	case strings.Contains(s, "must contain at least one field declaration"):
+		return "proto oneof without members"
+	case strings.Contains(s, "unknown enum value"):
+		return "unknown enum value"
 	case strings.Contains(s, "not found"):
 		return "type not found"
 	case strings.Contains(s, "already defined") || strings.Contains(s, "duplicate") || strings.Contains(s, "conflict"):
@@ -682,5 +906,106 @@ func oracleC17(res *vh.Result, caseNo int, d *entityDecl, dump *dumped, in any) 
 	}
 	if nUpsert != len(d.Summaries) {
 		fail("C17 upsert topics differ in number from the summaries", "one upsert topic per summary", fmt.Sprint(nUpsert))
+	}
+}
+
+// oracleClient: the client API groups the entity's parts into exactly one StateEntity.
+func oracleClient(res *vh.Result, caseNo int, d *entityDecl, ents []*client_j5pb.StateEntity, plain []*client_j5pb.Service, in any) {
+	fail := func(sig, clause, got string) {
+		res.Fail(vh.Failure{Case: caseNo, Stream: "entity", Sig: sig, Clause: clause, Input: in, Got: got})
+	}
+	if len(ents) != 1 {
+		fail("C17 client API does not show exactly one state entity", "the client groups the parts into one StateEntity", fmt.Sprint(len(ents)))
+		return
+	}
+	e := ents[0]
+	if len(plain) != 0 {
+		fail("C17 client API leaves an entity service outside the StateEntity", "query and command services belong to the entity", plain[0].Name)
+	}
+	if e.QueryService == nil || len(e.QueryService.Methods) != 3 {
+		fail("C17 client StateEntity has no query service with three methods", "a query service with Get, List and Events methods", "")
+	}
+	if len(e.CommandServices) != len(d.Commands) {
+		fail("C17 client StateEntity command services differ in number from the declaration", "every declared command service", fmt.Sprint(len(e.CommandServices)))
+	}
+	if len(e.Events) != len(d.Events) {
+		fail("C17 client StateEntity events differ in number from the declaration", "exactly one option per declared event", fmt.Sprint(len(e.Events)))
+	}
+	var prim []string
+	for _, k := range d.Keys {
+		if k.Key && k.Primary {
+			prim = append(prim, k.Name)
+		}
+	}
+	if strings.Join(prim, ",") != strings.Join(e.PrimaryKey, ",") {
+		fail("C17 client StateEntity primary keys are not the declared primary keys in order", "primary-key fields ... in declaration order", strings.Join(e.PrimaryKey, ","))
+	}
+}
+
+// countShape records which corners of the declaration space a case touches.
+func countShape(res *vh.Result, e *entityDecl) {
+	n := e.Name
+	switch {
+	case endsCap(n):
+		res.Count("name_ends_in_capital")
+	case strings.ContainsAny(n, "0123456789"):
+		res.Count("name_with_digit")
+	case strings.Contains(n, "_"):
+		res.Count("name_with_underscore")
+	case n[0] >= 'a' && n[0] <= 'z':
+		res.Count("name_lower_camel")
+	default:
+		res.Count("name_upper_camel")
+	}
+	if strcase.ToCamel(strcase.ToSnake(n)) != strcase.ToCamel(n) {
+		res.Count("name_query_prefix_differs")
+	}
+	prim, shard, foreign, tenant, scalarKey := 0, 0, 0, 0, 0
+	for _, k := range e.Keys {
+		if k.Key && k.Primary {
+			prim++
+		}
+		if k.Shard {
+			shard++
+		}
+		if k.Foreign != nil {
+			foreign++
+		}
+		if k.Tenant != nil {
+			tenant++
+		}
+		if !k.Key {
+			scalarKey++
+		}
+	}
+	res.Count(fmt.Sprintf("keys_%d", len(e.Keys)))
+	res.Count(fmt.Sprintf("primary_keys_%d", prim))
+	if shard > 0 {
+		res.Count("with_shard_key")
+	}
+	if foreign > 0 {
+		res.Count("with_foreign_key")
+	}
+	if tenant > 0 {
+		res.Count("with_tenant_key")
+	}
+	if scalarKey > 0 {
+		res.Count("with_non_key_typed_key")
+	}
+	res.Count(fmt.Sprintf("events_%d", len(e.Events)))
+	res.Count(fmt.Sprintf("commands_%d", len(e.Commands)))
+	res.Count(fmt.Sprintf("summaries_%d", len(e.Summaries)))
+	res.Count(fmt.Sprintf("statuses_%d", len(e.Status)))
+	if e.Query != nil {
+		res.Count("with_query_settings")
+		if len(e.Query.DefaultStatus) > 0 {
+			res.Count("with_default_status_filter")
+		}
+		if e.Query.EventsInGet {
+			res.Count("with_events_in_get")
+		}
+	}
+	if e.BaseURL != "" {
+		res.Count("with_base_url_override")
 	}
 }
